@@ -81,6 +81,38 @@ Proof. split; vm_compute; reflexivity. Qed.
    grammar whose rules can be ranked - every rule calls, in the atomicity context its body runs
    in, only rules of lower rank - is parsed without ever exhausting the depth budget, whatever
    the bytes of the input are ... *)
+(* The MIR lowering computes the packed size of every struct parameter in usize - also for the
+   structs of included files, which the struct verifier never sees.  With the arithmetic checked
+   (regenerated fact mir_size_checked) a size that does not fit is refused, whatever the build mode
+   (the model function has no mode argument any more); every lowered parameter's size fits.  The pinned
+   unchecked arithmetic accepted the witness in the model and, in the real binaries, panicked in the
+   debug build and wrapped in the release build (replay: the must-refuse file sets of the C16 check). *)
+Theorem C16_oversized_struct_parameter_refused : CounterFacts.mir_size_checked = true ->
+  forall fuel st p t, resolve_ty fuel st (p_ty p) = Ok t -> (usize_max <= mty_size t)%N ->
+  resolve_param fuel st p = Reject ROverflow.
+Proof. intros Hc fuel st p t H Hs. unfold resolve_param. rewrite Hc. exact (resolve_param_oversized true fuel st p t H Hs). Qed.
+Print Assumptions C16_oversized_struct_parameter_refused.
+
+Theorem C16_lowered_parameter_size_fits : CounterFacts.mir_size_checked = true ->
+  forall fuel st p mp, resolve_param fuel st p = Ok mp -> (mty_size (mp_ty mp) < usize_max)%N.
+Proof. intros Hc fuel st p mp. unfold resolve_param. rewrite Hc. exact (resolve_param_fits fuel st p mp). Qed.
+Print Assumptions C16_lowered_parameter_size_fits.
+
+Theorem C16_oversized_struct_parameter_refuted_upstream : forall fuel st p,
+  resolve_ty fuel st (p_ty p) = Ok huge_ty ->
+  exists mp, resolve_param_gen false fuel st p = Ok mp /\ (usize_max <= mty_size (mp_ty mp))%N.
+Proof.
+  intros fuel st p H. eexists. split.
+  - rewrite (resolve_param_oversized false fuel st p huge_ty H); [reflexivity|].
+    apply N.leb_le. exact huge_overflows.
+  - cbn [mp_ty]. apply N.leb_le. exact huge_overflows.
+Qed.
+Print Assumptions C16_oversized_struct_parameter_refuted_upstream.
+
+Theorem C16_mir_size_checked_current : CounterFacts.mir_size_checked = true.
+Proof. reflexivity. Qed.
+Print Assumptions C16_mir_size_checked_current.
+
 Theorem C16_parser_total : forall g, grammar_ok g = true -> forall inp, parse_with g inp <> RFuel.
 Proof. exact parse_total. Qed.
 Print Assumptions C16_parser_total.
